@@ -10,19 +10,24 @@ def endOf (g : Sig) : String := g.show
 /-- the program tree equivalent to `run_lexical(a,b,c,f1,f2,f3)` of harness/h_exn.c (-1 encoded as 99 = no throw) -/
 def lexical (a b c : Option Nat) (f1 f2 f3 : Nat) : Prog :=
   let opt (k : Option Nat) (tag : Nat) : Prog := match k with
-    | some k => .seq (.throw k) (.stmt tag)
+    | some k => .seq (.throw (kindObj k)) (.stmt tag)
     | none => .stmt tag
   .seq (.tryCatch (.seq (.stmt 1) (.seq (.tryCatch (.seq (.stmt 2) (.seq
-      (.tryCatch (.seq (.stmt 3) (opt a 4)) [f3] (opt b 5)) (.stmt 6))) [f2] (opt c 7)) (.stmt 8))) [f1] (.stmt 9)) (.stmt 10)
+      (.tryCatch (.seq (.stmt 3) (opt a 4)) [kindObj f3] (opt b 5)) (.stmt 6))) [kindObj f2] (opt c 7)) (.stmt 8))) [kindObj f1] (.stmt 9)) (.stmt 10)
 
 def parseOptKind (s : String) : Option (Option Nat) :=
   if s = "-1" then some none else (s.toNat?).map some
 
+/-- the variable bound at top level (harness: `run(prog, TypeError)`) -/
+def topBound : Nat := kindObj 0
+
 def report (p : Prog) : IO (Nat × Bool) := do
-  let (s, t, g) := run CelloGen.Exn.catchConsumes CelloGen.Exn.maxDepth p St.init
-  let (rt, re) := eval p
+  let (s, t, g) := run CelloGen.Exn.catchConsumes CelloGen.Exn.maxDepth p topBound St.init
+  let (rt, re) := eval p topBound
   IO.println s!"O trace={showTrace t} end={endOf g} depth={if g = .normal then toString s.depth else "-"}"
-  IO.println s!"R trace={showTrace rt} exc={match re with | none => "none" | some e => toString e} nest={nest p}"
+  -- reference outcome + whether the program meets the hypotheses of C07_current_source (then O and R must agree)
+  let hyp := inDomain p && nodupFilters p && decide (nest p ≤ CelloGen.Exn.maxDepth)
+  IO.println s!"R trace={showTrace rt} exc={match re with | none => "none" | some e => if e = 0 then "NULL" else toString (e - 1)} nest={nest p} dom={inDomain p} nodup={nodupFilters p} hyp={hyp}"
   return ((t.filter (fun e => match e with | .handler _ => true | _ => false)).length, g = .fatal)
 
 def main (args : List String) : IO Unit := do
